@@ -456,7 +456,7 @@ func listenerWide(rep *kit.Report) {
 
 func main() {
 	rep := kit.NewReport("C17", "exploration",
-		"body limits: every non-empty subset (and its reversal) of 4 nested path scopes x 9 request paths x body lengths {0, L-1, L, L+1, 2L for every L} x {Content-Length, chunked by 1, by 3, by n+1} x 6 read-buffer sizes, directly and through proxy to an in-process backend; listener-wide: every assignment of {unset, none, 5s, 10s} to 1..3 co-hosted sites per timeout kind, pairs of kinds (2 sites; 3 in thorough), all four kinds over {unset,5s,10s} on 2 sites, header sizes over {unset,4KB,8KB}^n; distinct_nontrivial = outcome classes")
+		"body limits: every non-empty subset (and its reversal) of 4 nested path scopes x 9 request paths x body lengths {0, L-1, L, L+1, 2L for every L} x {Content-Length, chunked by 1, by 3, by n+1} x 6 read-buffer sizes, directly and through proxy to an in-process backend; 8 limits at and beyond what an int64 holds (refused, or small bodies arrive whole); listener-wide: every assignment of {unset, none, 5s, 10s} to 1..3 co-hosted sites per timeout kind, pairs of kinds (2 sites; 3 in thorough), all four kinds over {unset,5s,10s} on 2 sites, header sizes over {unset,4KB,8KB}^n; distinct_nontrivial = outcome classes")
 	kit.Init()
 	kit.RegisterProbe()
 	kit.Log.Off.Store(true)
@@ -485,6 +485,41 @@ func main() {
 		}
 		l.Close()
 		rep.Class("two-limits-directives/both-applied")
+	}
+	// limits far above any body: the largest values an int64 holds, and values whose unit multiplication does not fit one. The
+	// site is refused, or a 2000-byte body arrives whole (every one of these limits is above 2000 bytes).
+	for _, lim := range []string{"9223372036854775807", "9223372036854775806", "9007199254740992KB", "18014398509481985KB", "9007199254740993KB", "8589934592GB", "17179869185GB", "4611686018427387904"} {
+		cf := "a.test:8080 {\n\tlimits {\n\t\tbody / " + lim + "\n\t}\n\tverif_probe\n}\n"
+		l, err := kit.Load(cf, "/nonexistent/Casketfile")
+		rep.Eval(1)
+		if err != nil {
+			rep.Class("extreme-limit/refused")
+			continue
+		}
+		for _, n := range []int{5, 2000} {
+			for _, buf := range []int{1, 512, 32768} {
+				for _, chunked := range []bool{false, true} {
+					b := body(n)
+					raw := fmt.Sprintf("POST /x HTTP/1.1\r\nHost: a.test:8080\r\nX-Probe: readbody:%d\r\nContent-Length: %d\r\n\r\n%s", buf, len(b), b)
+					if chunked {
+						raw = fmt.Sprintf("POST /x HTTP/1.1\r\nHost: a.test:8080\r\nX-Probe: readbody:%d\r\nTransfer-Encoding: chunked\r\n\r\n%x\r\n%s\r\n0\r\n\r\n", buf, len(b), b)
+					}
+					req, _ := kit.Req(raw)
+					rec, pv, _ := kit.ServeReq(l.Server(""), req)
+					rep.Eval(1)
+					want := fmt.Sprintf("READ n=%d err=<nil>", n)
+					if pv != nil || !strings.Contains(rec.Body.String(), want) {
+						got := rec.Body.String()
+						if len(got) > 120 {
+							got = got[:120]
+						}
+						rep.Violation("C17/body/within-limit-not-passed-whole/extreme-limit", fmt.Sprintf("limit %s: a %d-byte body read with a %d-byte buffer did not arrive whole (status %d, panic %v)", lim, n, buf, rec.Status, pv), limCase{cf, raw[:min(len(raw), 200)], want + " ...", got})
+					}
+				}
+			}
+		}
+		l.Close()
+		rep.Class("extreme-limit/accepted")
 	}
 	// case-sensitive path mode (CASE_SENSITIVE_PATH=1): scopes that differ only in letter case are different scopes
 	httpserver.CaseSensitivePath = true
